@@ -63,7 +63,7 @@ impl Property for C06 {
 
     fn cases(&self, tier: Tier) -> u32 {
         match tier {
-            Tier::Quick => 8_000,
+            Tier::Quick => 40_000,
             Tier::Thorough => 100_000,
         }
     }
